@@ -64,6 +64,7 @@ def input_assembly(
     min_scaffolds=1,
     gap_skip=1,  # a gap separates two contigs with probability (5-gap_skip)/5
     texel_sized_gaps=False,  # gaps of about two texels (pieces that cover mostly gap)
+    terminal_gaps=False,  # FASTA-derived class with terminal N runs: scaffolds may start / end with a gap row (C01, C06 only)
 ):
     n_scaffolds = draw(st.integers(min_scaffolds, max_scaffolds))
     if shape is None:
@@ -121,6 +122,11 @@ def input_assembly(
                 if arbitrary_names and draw(st.integers(0, 5)) == 0:
                     cname = draw(st.sampled_from(["hap1_ctg_{}", "x:1-{}", "p.q-{}", "HAP2_scaffold_{}", "tig|{}"])).format(contig_n)
                 rows.append(["F", cname, start, start + ln - 1, strand])
+        if terminal_gaps and draw(st.integers(0, 2)) == 0:
+            if draw(st.booleans()):
+                rows.insert(0, ["G", draw(st.sampled_from([1, 10, 200, 2 * T + 1])), "scaffold"])
+            if draw(st.booleans()):
+                rows.append(["G", draw(st.sampled_from([1, 10, 200, 2 * T + 1])), "scaffold"])
         scaffolds.append([sname, rows])
     return scaffolds
 
